@@ -200,6 +200,11 @@ func TestVerifC19(t *testing.T) {
 		}
 		nch := 1 + sr.Intn(20)
 		flood := sr.Intn(3) == 0
+		big := i%4 == 2
+		if big {
+			nch = 20 + sr.Intn(30)
+			r.Count("scenarios_with_large_batches", 1)
+		}
 		if flood {
 			// 0…12+ undrained events on one interface: around and beyond the buffer
 			nch = 6 + sr.Intn(10)
@@ -215,9 +220,16 @@ func TestVerifC19(t *testing.T) {
 			}
 			_, pan = runWatch(w, func(notify func(changeSet)) {
 				for k := 0; k < nch; {
-					// one call carries 1–3 changes on 1–2 interfaces
+					// one call carries 1–3 changes on 1–2 interfaces; one scenario in four
+					// has large batches (a burst of up to 24 changes read in one receive,
+					// longer than a subscriber's buffer: a selective mask may match only
+					// the late ones)
 					cs := changeSet{}
-					for j, m := 0, 1+sr.Intn(3); j < m && k < nch; j++ {
+					per := 1 + sr.Intn(3)
+					if big {
+						per = 9 + sr.Intn(16)
+					}
+					for j, m := 0, per; j < m && k < nch; j++ {
 						ifc := ifaces[sr.Intn(len(ifaces))]
 						if flood {
 							ifc = ifaces[0]
